@@ -68,7 +68,7 @@ PROPS["C07"] = {
 
 PROPS["C08"] = {
     "level": "proof",
-    "technique": "Verus contracts on the extracted lease operations (acquire / renew / complete / fail / scavenge on both backends; the object-store versions with their CAS retry loops: success is justified relative to the version the successful attempt loaded): inductive invariant 'Active leases have pairwise disjoint chunk lists', closures handed to retain/filter lifted and verified, rely on the conditional-PUT contract of the lease file",
+    "technique": "Verus contracts on the extracted lease operations (acquire / renew / complete / fail / scavenge on both backends; the object-store versions with their CAS retry loops: success is justified relative to the version the successful attempt loaded): inductive invariant 'Active leases have pairwise disjoint chunk lists', closures handed to retain/filter lifted and verified, rely on the conditional-PUT contract of the lease file; holder side (Compactor): the renewal cadence lies strictly inside the TTL, the renewal loop has no exit of its own (a failed renewal is retried at the next tick: F41), and the guard returned by spawn_lease_renewal aborts the task when dropped (F40)",
     "frame_scans": [{"file": "src/metadata/s3.rs", "patterns": [".atomic_save_leases("],
                      "allowed_units": ["s3_acquire_lease", "s3_renew_lease", "s3_complete_lease", "s3_fail_lease", "s3_scavenge_leases"],
                      "message": "the lease file is written only by the five lease operations under contract"}],
@@ -179,7 +179,7 @@ PROPS["C19"] = {
 
 PROPS["C09"] = {
     "level": "other",
-    "technique": "Verus contracts on the extracted persist_pending_deletions / load_pending_deletions (what is persisted at the end of a cycle is the complete pending list; after a restart exactly the persisted and the already pending paths are pending, each path once); Verus contracts on the extracted Compactor::garbage_collect (every path handed to the object store's delete was pending, past its grace period and unpinned when checked; the four closures are lifted and verified), Compactor::enforce_retention (only chunks whose newest row is older than the cut-off leave the catalog), BoundedClock::retention_cutoff_nanos and the pin registry (is_pinned; pin adds one count per occurrence of each path, PinGuard::drop takes back exactly its own counts -- another guard's pin on the same path survives); Verus scope contract on the pinning region of QueryNode::query_for_tenant (the RAII pin guard taken for the selected chunk paths is alive when the statement is planned and executed and is released on every exit: guard directive, mode x)",
+    "technique": "Verus contracts on the extracted persist_pending_deletions / load_pending_deletions (what is persisted at the end of a cycle is the complete pending list; the persisted list is never replaced before it has been read: F45; after a restart exactly the persisted and the already pending paths are pending, each path once); Verus contracts on the extracted Compactor::garbage_collect (every path handed to the object store's delete was pending, past the CONFIGURED grace period -- no substitute value: F43 -- and unpinned when checked; an entry leaves the pending list only when the store said its object is gone: F42; the four closures are lifted and verified), Compactor::enforce_retention (only chunks whose newest row is older than the cut-off leave the catalog), BoundedClock::retention_cutoff_nanos and the pin registry (is_pinned; pin adds one count per occurrence of each path, PinGuard::drop takes back exactly its own counts -- another guard's pin on the same path survives); Verus scope contract on the pinning region of QueryNode::query_for_tenant (the RAII pin guard taken for the selected chunk paths is alive when the statement is planned and executed and is released on every exit: guard directive, mode x)",
     "frame_scans": [{"file": "src/compactor/mod.rs", "patterns": [".delete(", ".delete_chunk("],
                      "allowed_units": ["garbage_collect", "enforce_retention"],
                      "message": "the compactor deletes objects only in garbage_collect and drops catalog entries only in enforce_retention (nothing else is ever deleted)"}],
@@ -308,17 +308,18 @@ PROPS["C10"] = {
 
 PROPS["C16"] = {
     "level": "other",
-    "technique": "Verus contract on the extracted CachedObjectStore::get (the cache is asked under the key of `location`, the miss path fetches `location` itself, the bytes and the range handed back are the whole object); Verus contracts on the extracted TieredCache::get_or_fetch (representation invariant: whatever L1 / L2 may hold under a key is the backing store's bytes of that key; a successful read returns exactly those bytes; inserts only under the requested key), TieredCache::invalidate and CachedObjectStore::get_opts / delete / rename (ranged and conditional reads bypass the cache, delete and rename invalidate)",
+    "technique": "Verus contract on the extracted CachedObjectStore::get (the cache is asked under the key of `location`, the miss path fetches `location` itself, the bytes and the range handed back are the whole object); Verus contracts on the extracted TieredCache::get_or_fetch (representation invariant: whatever L1 / L2 may hold under a key is the backing store's bytes of that key; a successful read returns exactly those bytes; inserts only under the requested key), TieredCache::invalidate and CachedObjectStore::get_opts / delete / rename (every request that carries any option of GetOptions -- range, ETag or date condition, version, head -- bypasses the cache, delete and rename invalidate); the cache tiers fail open (if reading the backing store cannot fail, get_or_fetch does not fail: an error of the disk tier is a miss); the disk tier's weighter, lifted out of TieredCache::new, never returns 0 (foyer asserts that)",
     "frame_scans": [{"file": "src/query/cached_store.rs", "patterns": ["self.cache.get_or_fetch(", "self.cache.get("],
                      "allowed_units": ["store_get"],
                      "message": "the tiered cache is read only by the whole-object GET (ranged / conditional reads and every other request go to the backing store)"}],
     "verus": ["c16_cache.rs.in"],
-    "explanation": "Transparency is proved for every sequence of operations (invariant preserved by each operation) under the ASSUMED moka / foyer contract that get(k) returns only a value previously inserted under k (eviction = absence at any time). CachedObjectStore::get itself (closure / stream plumbing around get_or_fetch) enters through an assumed contract; concurrent readers of one key and eviction timing inside moka / foyer are not covered; other GetOptions fields (if_modified_since, version, head) are not examined by the code and not by this check.",
+    "explanation": "Transparency is proved for every sequence of operations (invariant preserved by each operation) under the ASSUMED moka / foyer contract that get(k) returns only a value previously inserted under k (eviction = absence at any time). CachedObjectStore::get itself (closure / stream plumbing around get_or_fetch) enters through an assumed contract; concurrent readers of one key and eviction timing inside moka / foyer are not covered. Defects F56 (date-conditional / versioned / head reads answered from the cache), F57 (empty object panics with a disk tier) and F58 (disk tier error fails the read) were found by an audit of the unchanged code and repaired; each is now a postcondition.",
     "assumptions": [
         "moka::future::Cache and foyer::HybridCache return from get(k) only what was inserted under k, or nothing",
         "chunk objects are write-once: the backing store's bytes under a key never change (stored(k) is a function of the key)",
         "the fetch closure passed to get_or_fetch reads the backing store under the same key",
         "Arc, Bytes::from / to_vec preserve contents",
+        "foyer HybridCacheBuilder chain (memory, eviction, storage engine, device, build) yields an empty cache that calls the weighter handed to it; foyer panics inside its own code (garbage over entry headers) are outside this check",
     ],
 }
 
